@@ -75,8 +75,30 @@ fn gen_data<A: Abc>(rng: &mut impl Rng, w: usize) -> Vec<Vec<usize>> {
     }).collect()
 }
 
+/// A data set holding one very long sequence dominated by one symbol (more than 65 535 occurrences of it) next to a
+/// few ordinary ones: per-sequence symbol counts beyond 16 bits.
+fn long_data(rng: &mut impl Rng, w: usize) -> Vec<Vec<usize>> {
+    let heavy = rng.gen_range(0..4);
+    let l = rng.gen_range(68_000..72_000);
+    let long: Vec<usize> = (0..l).map(|_| if rng.gen_bool(0.96) { heavy } else { rng.gen_range(0..4) }).collect();
+    let mut data = vec![long];
+    for _ in 0..rng.gen_range(2..4) { let l = rng.gen_range(w + 5..60); data.push(random_ranks::<Dna>(rng, l, 0.02)); }
+    if rng.gen_bool(0.5) { data.rotate_left(1); }
+    data
+}
+
 pub fn record(rec: &mut Recorder, seed: u64, thorough: bool) {
     let mut r = rng(seed, 16);
+    for k in 0..(if thorough { 3 } else { 1 }) {
+        let w = [5usize, 9, 3][k];
+        let data = long_data(&mut r, w);
+        let rs: u64 = r.gen();
+        let zoops = k == 1;
+        let evs = run_once::<Dna>(&data, w, zoops, 2, None, Some(10_000), rs, 10, None);
+        rec.reset();
+        rec.class("sequence_longer_than_65535");
+        for e in evs { rec.emit(e); }
+    }
     let runs = if thorough { 60 } else { 16 };
     let steps = if thorough { 1500 } else { 220 };
     for run in 0..runs {
